@@ -125,6 +125,9 @@ static inline uint64_t* vf_alloc_words_raw(uint64_t n) {
   uint64_t* p = (uint64_t*)malloc(n * sizeof(uint64_t)); /* typed size expression: CBMC then models the object as uint64_t[n], not bytes */
 #ifdef __CPROVER__
   __CPROVER_assume(p != 0);
+#else
+  /* native replay: arbitrary prior contents are a non-zero pattern (the double 1.5), not the zeros of a fresh heap page */
+  for (uint64_t i = 0; i < n; ++i) p[i] = UINT64_C(0x3ff8000000000000);
 #endif
   return p;
 }
